@@ -11,6 +11,7 @@ import (
 	_ "verif/checks/c01"
 	_ "verif/checks/c05"
 	_ "verif/checks/c06"
+	_ "verif/checks/c08"
 	_ "verif/checks/c11"
 	_ "verif/checks/c19"
 	_ "verif/checks/c20"
